@@ -787,6 +787,73 @@ func checkC07(c *Check) {
 		}
 	}
 	c07DomainComparisons(c)
+	c07Inputs(c)
+}
+
+// R8, R9: the verdict is computed from the policy record and from the results of ALL checks.
+//
+// R8 – the policy record is fetched asynchronously: checkBody starts FetchRecord and applyResults collects the
+// answer later. The context the fetch runs under must outlive the function that starts it: a context obtained from
+// context.WithTimeout / WithCancel / WithDeadline whose cancel function is deferred in the starting function is
+// cancelled the moment that function returns – a lookup still in flight fails with "operation was canceled", which is
+// no temporary error: the message of a p=reject domain is judged as "no policy" and accepted.
+//
+// R9 – DMARC needs the SPF and DKIM results the body checks produce. applyResults (which asks the verifier) comes after
+// the body checks of every scope – global, source block, every recipient block – on the SMTP path and on the
+// per-recipient (LMTP) path alike. That is the stage-sequence agreement of C06.R1, a clause of this property too.
+func c07Inputs(c *Check) {
+	p := c.P
+	c.Rule("R8", "the context handed to the asynchronous policy fetch (Verifier.FetchRecord) is not derived from a context whose cancel function the calling function defers", 1)
+	fetch := calling("~/internal/dmarc.Verifier.FetchRecord")
+	n := 0
+	p.AllFuncs(p.ServerPkgs(), func(fi *FuncInfo) {
+		info := fi.Info()
+		for _, call := range callsIn(fi.Decl.Body) {
+			if !fetch(info, call) || len(call.Args) < 1 {
+				continue
+			}
+			n++
+			c.SawFunc(fi.Name())
+			ctxObj := objOf(info, call.Args[0])
+			msg := ""
+			if ctxObj != nil {
+				// every definition of that variable in the function
+				ast.Inspect(fi.Decl.Body, func(x ast.Node) bool {
+					as, ok := x.(*ast.AssignStmt)
+					if !ok || len(as.Rhs) != 1 || len(as.Lhs) != 2 || objOf(info, as.Lhs[0]) != ctxObj {
+						return true
+					}
+					dc, ok := ast.Unparen(as.Rhs[0]).(*ast.CallExpr)
+					if !ok || !isCall(info, dc, "context.WithTimeout", "context.WithCancel", "context.WithDeadline", "context.WithTimeoutCause", "context.WithDeadlineCause", "context.WithCancelCause") {
+						return true
+					}
+					cancel := objOf(info, as.Lhs[1])
+					ast.Inspect(fi.Decl.Body, func(y ast.Node) bool {
+						if ds, isDefer := y.(*ast.DeferStmt); isDefer && cancel != nil && mentions(info, ds, cancel) {
+							msg = "line " + itoa(p.Fset.Position(as.Pos()).Line) + ": the policy fetch is started under a context that " + refName(fi.Obj) + " cancels when it returns (defer " + cancel.Name() + "()): a DNS lookup still in flight fails with 'operation was canceled', the verdict becomes 'no policy' and a message that fails DMARC for a p=reject domain is accepted"
+						}
+						return true
+					})
+					return true
+				})
+			}
+			c.Hold("R8", refName(fi.Obj)+":fetch-context", call.Pos(), msg == "", msg)
+		}
+	})
+	if n == 0 {
+		c.Fail("R8", "FetchRecord", token.NoPos, "undecided: the policy fetch is never started")
+	}
+	c.Rule("R9", "applyResults (the DMARC verdict) comes after the body checks of every scope on both body paths of the pipeline (C06.R1)", 1)
+	sub := newCheck("C06", c.P, c.Tier)
+	c06StageOrder(sub)
+	for _, o := range sub.obs {
+		if o.Rule == "R1" {
+			c.Hold("R9", o.Key, o.posRaw, o.OK, o.Msg)
+		}
+	}
+	for f := range sub.funcs {
+		c.SawFunc(f)
+	}
 }
 
 // R7: names of domains are compared without regard to case, whole name against whole name.
